@@ -26,6 +26,7 @@
 #include <ksi/tree_builder.h>
 #include <ksi/blocksigner.h>
 #include <ksi/hmac.h>
+#include <ksi/impl/signature_impl.h>
 #include <stdarg.h>
 
 KSI_IMPORT_TLV_TEMPLATE(KSI_PublicationRecord);
@@ -632,6 +633,22 @@ static void su_ctx_hash(int k) {
 	G.ctx = ku_ctx();
 	G.dh[0] = mk_hash(21);
 }
+/* the service is configured under the fault, then used without one: what was configured has to be what was asked for */
+static int run_configure_sign(int k) {
+	KSI_Signature *s = NULL;
+	long sn0, fc0;
+	int res;
+	CK(KSI_CTX_setAggregator(G.ctx, k ? HTTP_AGGR : TCP_AGGR, A_LOGIN, A_KEY));
+	fault_off();
+	sn0 = sn_calls; fc0 = fc_calls;
+	CK(KSI_Signature_signAggregated(G.ctx, G.dh[0], 0, &s));
+done:
+	fault_off();
+	if (res == KSI_OK) { out_sig(s); out_fmt("transport:%s", sn_calls > sn0 ? "tcp" : fc_calls > fc0 ? "http" : "none"); }
+	else if (s != NULL) out_fmt("error-with-object");
+	KSI_Signature_free(s);
+	return res;
+}
 static int run_sign_request(int k) {
 	KSI_AggregationReq *req = NULL;
 	KSI_AggregationPdu *pdu = NULL;
@@ -823,6 +840,7 @@ static void su_builder(int k) {
 	net_reset();
 	G.ctx = ku_ctx();
 	if (k == 1) { sig_bytes(2, &G.in); G.sig = parse_fixture(&G.in); return; }
+	if (k == 2 || k == 3) { sig_bytes(3, &G.in); G.sig = parse_fixture(&G.in); return; }
 	for (i = 0; i < 3; i++) G.dh[i] = mk_hash(50 + (unsigned)i);
 	if (KSI_TreeBuilder_new(G.ctx, KSI_HASHALG_SHA2_256, &G.tb) != KSI_OK) vf_harness_error("tree builder");
 	for (i = 0; i < 3; i++) if (KSI_TreeBuilder_addDataHash(G.tb, G.dh[i], 0, &G.leaf[i]) != KSI_OK) vf_harness_error("tree leaf");
@@ -843,6 +861,26 @@ static int run_builder(int k) {
 	if (k == 1) {
 		CK(KSI_SignatureBuilder_openFromSignature(G.sig, &b));
 		CK(KSI_SignatureBuilder_close(b, 0, &s));
+	} else if (k == 2 || k == 3) {
+		/* a signature assembled from its parts; k == 3: a close that failed is repeated on the same builder without a fault */
+		size_t i;
+		CK(KSI_SignatureBuilder_open(G.ctx, &b));
+		for (i = 0; i < KSI_AggregationHashChainList_length(G.sig->aggregationChainList); i++) {
+			KSI_AggregationHashChain *ch = NULL;
+			CK(KSI_AggregationHashChainList_elementAt(G.sig->aggregationChainList, i, &ch));
+			CK(KSI_SignatureBuilder_addAggregationChain(b, ch));
+		}
+		CK(KSI_SignatureBuilder_setCalendarHashChain(b, G.sig->calendarChain));
+		CK(KSI_SignatureBuilder_setCalendarAuthRecord(b, G.sig->calendarAuthRec));
+		res = KSI_SignatureBuilder_close(b, 0, &s);
+		if (res != KSI_OK && k == 3) {
+			int first = res;
+			fault_off();
+			if (s != NULL) { out_fmt("error-with-object"); goto done; }
+			res = KSI_SignatureBuilder_close(b, 0, &s);
+			if (res != KSI_OK) { failf("repeat-differs", "KSI_SignatureBuilder_close failed with 0x%x under the fault; repeated on the same builder without a fault it fails with 0x%x", first, res); }
+		}
+		if (res != KSI_OK) { g_fail_line = __LINE__; goto done; }
 	} else {
 		CK(KSI_TreeLeafHandle_getAggregationChain(G.leaf[1], &c));
 		CK(KSI_SignatureBuilder_openFromSignature(G.sig, &b));
@@ -1033,6 +1071,20 @@ static void su_pubfile(int k) {
 	FXS.root_len = ref_fake_imprint(RH_SHA256, 81, FXS.root);
 	if (k == 3) pubfile_bytes(&FXS.pubfile);
 	else pubfile_bytes(&G.in);
+	if (k == 4) {
+		/* the publications file is read through the file transport */
+		static char path[300], uri[320];
+		const char *vd = getenv("VERIF_DIR");
+		FILE *f;
+		snprintf(path, sizeof path, "%s/build/tmp", vd ? vd : "/verif");
+		mkdir(path, 0777);
+		snprintf(path, sizeof path, "%s/build/tmp/c19_pub_%ld.bin", vd ? vd : "/verif", (long)getpid());
+		f = fopen(path, "wb");
+		if (!f || fwrite(G.in.p, 1, G.in.n, f) != G.in.n) vf_harness_error("cannot write %s", path);
+		fclose(f);
+		snprintf(uri, sizeof uri, "file://%s", path);
+		if (KSI_CTX_setPublicationUrl(G.ctx, uri) != KSI_OK) vf_harness_error("setPublicationUrl(file)");
+	}
 	if (k == 1 || k == 2) if (KSI_PublicationsFile_parse(G.ctx, G.in.p, G.in.n, &G.pf) != KSI_OK) vf_harness_error("fixture publications file refused");
 	if (k == 2) {
 		size_t hl;
@@ -1088,7 +1140,7 @@ static int run_pubfile(int k) {
 done:
 	fault_off();
 	if (res == KSI_OK) {
-		if (k == 0 || k == 3) {
+		if (k == 0 || k == 3 || k == 4) {
 			int rc = KSI_PublicationsFile_serialize(G.ctx, pf, &raw, &n);
 			if (rc == KSI_OK) out_bytes(raw, n); else out_fmt("unserializable:%x", rc);
 		} else if (k == 1) out_fmt("trusted");
@@ -1282,6 +1334,8 @@ static const op_t OPS[] = {
 	{"aggr-pdu-parse", su_aggr_pdu, run_aggr_pdu, 0},
 	{"aggr-resp-to-signature", su_aggr_pdu, run_aggr_pdu, 1},
 	{"ext-pdu-parse", su_ext_pdu, run_ext_pdu, 0},
+	{"configure-tcp-then-sign", su_ctx_hash, run_configure_sign, 0},
+	{"configure-http-then-sign", su_ctx_hash, run_configure_sign, 1},
 	{"sign-request-build", su_ctx_hash, run_sign_request, 0},
 	{"extend-request-build", su_ctx_hash, run_extend_request, 0},
 	{"sign-tcp", su_sign, run_sign, 0},
@@ -1298,6 +1352,8 @@ static const op_t OPS[] = {
 	{"tree-builder", su_tree, run_tree, 0},
 	{"builder-append-chain", su_builder, run_builder, 0},
 	{"builder-reclose", su_builder, run_builder, 1},
+	{"builder-from-parts", su_builder, run_builder, 2},
+	{"builder-from-parts-retry-close", su_builder, run_builder, 3},
 	{"block-signer", su_block, run_block, 0},
 	{"block-signer-masked", su_block, run_block, 1},
 	{"async-sign-tcp", su_async, run_async, 0},
@@ -1314,6 +1370,7 @@ static const op_t OPS[] = {
 	{"pubfile-verify", su_pubfile, run_pubfile, 1},
 	{"pubfile-lookups", su_pubfile, run_pubfile, 2},
 	{"pubfile-receive-verify", su_pubfile, run_pubfile, 3},
+	{"pubfile-receive-file-uri", su_pubfile, run_pubfile, 4},
 	{"pubstring-from-base32", su_pubstring, run_pubstring, 0},
 	{"pubstring-to-base32", su_pubstring, run_pubstring, 1},
 	{"tlv-parse-clone-serialize", su_sigbytes, run_tlv, 3},
